@@ -253,6 +253,34 @@ var c09RememberTemplates = []sim.Template{
 	}},
 }
 
+// c09ConfirmTemplates: registration with e-mail confirmation in force leaves a session that is not
+// logged in; the login that follows — however much later — starts the idle clock.
+var c09ConfirmTemplates = []sim.Template{
+	{Name: "late-login-after-a-registration-that-awaited-confirmation", F: func(s *sim.Sim) []*sim.Action {
+		if !s.Cfg.Has("confirm") || !s.Cfg.Has("register") || !s.Cfg.Has("auth") {
+			return nil
+		}
+		b := s.R.Intn(len(s.Br))
+		n := len(s.Accts) // the account the registration creates
+		E := s.W.AB.Config.Modules.ExpireAfter
+		reg := act("register", b, -1, "")
+		reg.Cls2 = "fresh"
+		return []*sim.Action{reg, act("advance", b, -9, "", "d", pickD(s.R, 3*E, E+time.Second, E/2).String()), act("confirm", b, n, "current"),
+			act("login", b, n, "ok"), act("visit", b, -9, "", "route", "/public"), act("advance", b, -9, "", "d", (E / 2).String()), act("visit", b, -9, "", "route", "/protected/bare")}
+	}},
+}
+
+var c09ConfirmProfile = func() *sim.Profile {
+	p := *c09Profile
+	p.W = map[string]int{}
+	for k, v := range c09Profile.W {
+		p.W[k] = v
+	}
+	p.W["confirm"], p.W["admin_startconfirm"] = 4, 2
+	p.Templates, p.TplProb = c09ConfirmTemplates, 0.6
+	return &p
+}()
+
 var c09RememberProfile = func() *sim.Profile {
 	p := *c09Profile
 	p.W = map[string]int{}
@@ -277,13 +305,22 @@ func init() {
 			// incl. application keys whose NAMES contain library key names (uid, twofactor, halfauth)
 			cfg.Whitelist = [][]string{nil, {"app_theme"}, {"app_theme", "app_lang", "app_cart"}, {"app_uid"}, {"app_theme", "app_twofactor_hint", "xhalfauthx"}}[r.Intn(5)]
 			var mods []string
+			withConfirm := unit%5 == 4 // a fifth of the units keep e-mail confirmation in force
 			for _, m := range cfg.Modules {
-				if m != "lock" && m != "confirm" { // keep logins unobstructed: this check is about idling
+				if m != "lock" && (m != "confirm" || withConfirm) { // keep logins unobstructed: this check is about idling
 					mods = append(mods, m)
 				}
 			}
 			cfg.Modules = mods
 			prof := c09Profile
+			if withConfirm {
+				for _, need := range []string{"confirm", "register"} {
+					if !cfg.Has(need) {
+						cfg.Modules = append(cfg.Modules, need)
+					}
+				}
+				prof = c09ConfirmProfile
+			}
 			if unit%4 == 3 {
 				// remember.Middleware in front of expire.Middleware
 				if !cfg.Has("remember") {
